@@ -80,6 +80,7 @@ def build(cfg, src):
     S.keys["handshake"] = Q.level_keys(suite, sec["SERVER_HANDSHAKE_TRAFFIC_SECRET"])
     C.keys["app"] = Q.level_keys(suite, sec["CLIENT_TRAFFIC_SECRET_0"])
     S.keys["app"] = Q.level_keys(suite, sec["SERVER_TRAFFIC_SECRET_0"])
+    C.gens, S.gens = [C.keys["app"]], [S.keys["app"]]
     if cfg.get("zero_rtt"):
         C.keys["early"] = Q.level_keys(suite, sec["CLIENT_EARLY_TRAFFIC_SECRET"])
     phase = {False: 0, True: 0}
@@ -187,6 +188,7 @@ def build(cfg, src):
             # the sender of this datagram initiates a key update; the peer follows with its next packet
             for sd, who in ((S, True), (C, False)):
                 sd.keys["app"] = Q.next_generation(sd.keys["app"])
+                sd.gens.append(sd.keys["app"])
             phase[True] ^= 1
             phase[False] ^= 1
             pending_ack = True
